@@ -187,6 +187,25 @@ def cases(tier, seed, focus=None):
             out.append({"clause": "orthogonal", "agg": agg, "matrix": _matrix_spec(rng, agg, "orthogonal", wide=True),
                         "q": rng.choice(["haar", "house_row"]), "qrow": rng.randrange(6),
                         "qseed": rng.randrange(10**6), "rseed": rng.randrange(10**6)})
+    for agg in [a for a in GRAM_AGGS if a["name"] == "Krum"]:
+        # rows clustered around a large common gradient (float32): distances recovered from the Gramian
+        # (|x|^2 + |y|^2 - 2<x,y>) are rounding noise there, the true pairwise distances are not
+        for j in range(24 if thorough else 8):
+            spec = {"kind": "offset", "m": rng.randint(6, 9), "n": rng.choice([24, 40]), "seed": rng.randrange(10**9),
+                    "ratio": rng.choice([300.0, 500.0]), "spread": rng.choice([0.05, 0.1]), "hetero": True, "scale": 1.0, "dtype": "float32"}
+            if j % 2 == 0:
+                out.append({"clause": "orthogonal", "agg": agg, "matrix": spec, "q": "haar", "qrow": 0,
+                            "qseed": rng.randrange(10**6), "rseed": rng.randrange(10**6)})
+            else:
+                out.append({"clause": "colperm", "agg": agg, "matrix": spec, "perm": rng.sample(range(spec["n"]), spec["n"]),
+                            "rseed": rng.randrange(10**6)})
+    for agg in [a for a in LAYOUT_AGGS if a["name"] == "IMTLG"]:
+        # float32, 2e5 zero columns, condition number 50..100 (rank unambiguous): a cut-off of a pseudo-inverse that grows with
+        # the NUMBER OF COLUMNS (pinv of J instead of J J^T) drops genuine singular values only here
+        for j in range(6 if thorough else 2):
+            spec = {"kind": "wellcond", "m": 3, "n": rng.choice([4, 6]), "seed": rng.randrange(10**9), "cond": [50.0, 100.0][j % 2],
+                    "scale": 1.0, "dtype": "float32"}
+            out.append({"clause": "zerocol", "agg": agg, "matrix": spec, "blocks": [[spec["n"], 200000]], "rseed": rng.randrange(10**6)})
     for agg in LAYOUT_AGGS:
         for j in range(8 if thorough else 3):  # many zero columns (parameters that influence nothing)
             count = [20000, 3000, 300][j % 3]
@@ -263,12 +282,12 @@ def _scale(agg_spec, J, rseed):
     return float(w @ np.linalg.norm(Jn, axis=1)) + 1e-300
 
 
-def _krum_tie(agg_spec, Jn):
+def _krum_tie(agg_spec, Jn, margin=1e-6):
     if agg_spec["name"] != "Krum":
         return False
     sc = np.sort(krum_scores(Jn, agg_spec["f"]))
     k = agg_spec["k"]
-    return k < len(sc) and (sc[k] - sc[k - 1]) <= 1e-6 * (sc[k] + sc[k - 1])
+    return k < len(sc) and (sc[k] - sc[k - 1]) <= margin * (sc[k] + sc[k - 1])
 
 
 def _nontrivial(Jn):
@@ -316,11 +335,19 @@ def _compare(case, sig, key, J, J2, back, what, extra_zero=None):
     Jn = np64(J)
     eps = eps_of(J)
     nontrivial = _nontrivial(Jn)
-    if _krum_tie(agg_spec, Jn):
-        return ok(sig, False, "Krum selection within 1e-6 of a score tie")
+    # rows with a large common component (kind 'offset', float32): the rounding of J2 = J Q itself moves the distances by about
+    # eps * |row|, so the selection must be clear by a wider margin to be meaningful
+    if _krum_tie(agg_spec, Jn, 1e-6 if case["matrix"].get("kind") != "offset" else 2e-2):
+        return ok(sig, False, "Krum selection within the margin of a score tie")
     a = np64(_apply(agg_spec, J, rseed))
     b_full = np64(_apply(agg_spec, J2, rseed))
     b = back(b_full)
+    if agg_spec["name"] == "Krum":
+        # the weights of Krum are a selection (k-hot / k): away from score ties they must be the SAME rows, whatever the
+        # magnitude of the rows (a value comparison is blind to which of several nearby rows was averaged)
+        wa, wb = np64(_apply(agg_spec, J, rseed, weights=True)), np64(_apply(agg_spec, J2, rseed, weights=True))
+        if wa.shape != wb.shape or float(np.abs(wa - wb).max(initial=0.0)) > 1e-6:
+            return fail(sig, nontrivial, key, what + " (Krum selects different rows)", wb, wa, J=Jn if Jn.size <= 400 else None)
     tol = _rtol(agg_spec, Jn, eps) * _scale(agg_spec, J, rseed)
     if a.shape != b.shape or not np.all(np.isfinite(b_full)) or float(np.abs(a - b).max()) > tol:
         return fail(sig, nontrivial, key, what, b, a, tol=tol, J=Jn)
@@ -379,7 +406,8 @@ def _orthogonal(case, sig):
         return ok(sig, False, "sigma_max within rounding of norm_eps")
     Q = _q(case, J)
     Qn = np64(Q)
-    return _compare(case, sig, "C08.orthogonal", J, J @ Q, lambda v: v @ Qn.T, "A(J Q) Q^T differs from A(J)")
+    JQ = (J.double() @ Q.double()).to(J.dtype)   # the rotated matrix, rounded once to the dtype of J
+    return _compare(case, sig, "C08.orthogonal", J, JQ, lambda v: v @ Qn.T, "A(J Q) Q^T differs from A(J)")
 
 
 def _colperm(case, sig):
